@@ -174,8 +174,13 @@ def check_c10(tier, only_cases=None):
     trace = os.path.join(wd, "c10.trace")
     run_harness("wire", ["c10", cpath], trace)
     stats, viols = validate_trace("WireTrace", trace, prop, f"{prop}-{tier}", TRACE_CFG, nchunks=8, independent=True)
+    agent = {}
+    if "only_cases" not in dir() or only_cases is None:
+        # policy names and comments travel from the router's configuration through the agent into its requests
+        import check_agent
+        agent = check_agent.side_run(prop, tier, verdict, any_rule=True)
     return finish(prop, tier, t0, verdict, stats, viols, gr,
-                  {"samples": [cases[0], cases[len(cases) // 2], cases[-1]], "parameter_value_cases": len(cases), "exhaustive": True,
+                  {"agent_policy_names": agent, "samples": [cases[0], cases[len(cases) // 2], cases[-1]], "parameter_value_cases": len(cases), "exhaustive": True,
                    "rule": "15 text-valued parameters (tokens, log message, instance name, XPath in get / get-config, URLs, text / JSON / set "
                            "configuration payloads, XML fragments as filter / edit-config / copy-config content) x every string of up to 2 "
                            "(thorough 3) character classes out of plain, <, >, &, quote, apostrophe, the delimiter, non-ASCII, spaces; the "
